@@ -10,6 +10,9 @@
 //!   clr s= n=                         remove the text (null with one site, the empty string with two: a peer refuses explicit nulls)
 //!   del s= n=
 //!   pull s= from=<site>               s ingests the (single) room of `from`
+//!   link s= n= m=                     add the reference kids n -> m between two `Doc` rows (single-site cases only, else `skip`)
+//!   qn s= t=<word>                    search placed on the nested field: `Doc { kids(search(t)) { … } }` -> `nhits p:c1,c2;p2:…`
+//!   qnall s=                          the nested search for every word -> `nall <word>=p:c1,c2/p2:…;…`
 //!   q s= e= t=<word>                  search -> `hits n1,n2,…` (row numbers, sorted)
 //!   qall s=                           every word of past and current texts, for both entities -> `all <e>:<word>:<rows>;…` (non-empty results only)
 //!
@@ -28,7 +31,7 @@ pub const ENT_NAMES: [&str; 2] = ["Doc", "Note"];
 
 pub fn model_text(v: u64) -> String {
     format!(
-        "{{ Doc{} {{ txt:String nullable, tag:String nullable }} Note{} {{ txt:String nullable }} }}",
+        "{{ Doc{} {{ txt:String nullable, tag:String nullable, kids:[Doc] }} Note{} {{ txt:String nullable }} }}",
         if v & 1 == 1 { "(no_full_text_index)" } else { "" },
         if v & 2 == 2 { "" } else { "(no_full_text_index)" }
     )
@@ -203,6 +206,66 @@ impl World {
         Ok((hits, expect))
     }
 
+    /// the nested search (real query path) and the independent expectation: per parent, the children reached
+    /// through `kids` whose current text contains the word (plain query, no search)
+    async fn nested(&self, s: usize, t: u64) -> Result<(Vec<(u64, Vec<u64>)>, Vec<(u64, Vec<u64>)>), String> {
+        let w = &word(t);
+        let num = |v: &serde_json::Value| self.row_of_uid.get(v["id"].as_str().unwrap_or("")).copied().unwrap_or(u64::MAX);
+        let q = "query { Doc { id kids(search($t)) { id } } }";
+        let res = self.sites[s].inst.svc.query(q, Some(params(&[("t", w.to_string())]))).await.map_err(|e| class(&e))?;
+        let v: serde_json::Value = serde_json::from_str(&res).map_err(|e| e.to_string())?;
+        let mut hits = vec![];
+        for p in v["Doc"].as_array().cloned().unwrap_or_default() {
+            let mut cs: Vec<u64> = p["kids"].as_array().cloned().unwrap_or_default().iter().map(|c| num(c)).collect();
+            cs.sort();
+            if !cs.is_empty() {
+                hits.push((num(&p), cs));
+            }
+        }
+        hits.sort();
+        let q2 = "query { Doc(nullable(kids)) { id kids { id txt tag } } }";
+        let res = self.sites[s].inst.svc.query(q2, None).await.map_err(|e| class(&e))?;
+        let v: serde_json::Value = serde_json::from_str(&res).map_err(|e| e.to_string())?;
+        let mut expect = vec![];
+        for p in v["Doc"].as_array().cloned().unwrap_or_default() {
+            let mut cs: Vec<u64> = p["kids"]
+                .as_array()
+                .cloned()
+                .unwrap_or_default()
+                .iter()
+                .filter(|c| ["txt", "tag"].iter().any(|f| c[*f].as_str().map(|x| x.contains(w.as_str())).unwrap_or(false)))
+                .map(|c| num(c))
+                .collect();
+            cs.sort();
+            if !cs.is_empty() {
+                expect.push((num(&p), cs));
+            }
+        }
+        expect.sort();
+        Ok((hits, expect))
+    }
+
+    /// oracle of a nested search: per parent, the children returned must be the children whose text matches; a
+    /// difference that a known index defect of the child explains keeps that defect's signature
+    fn classify_nested(&self, s: usize, t: u64, hits: &[(u64, Vec<u64>)], expect: &[(u64, Vec<u64>)]) -> Vec<(String, String)> {
+        let mut parents: BTreeSet<u64> = hits.iter().map(|x| x.0).collect();
+        parents.extend(expect.iter().map(|x| x.0));
+        let mut res = vec![];
+        for p in parents {
+            let h = hits.iter().find(|x| x.0 == p).map(|x| x.1.clone()).unwrap_or_default();
+            let e = expect.iter().find(|x| x.0 == p).map(|x| x.1.clone()).unwrap_or_default();
+            for (sig, detail) in self.classify(s, 0, t, &h, &e) {
+                let sig = match sig.as_str() {
+                    "stale-hit" => "nested-search-returns-child-whose-text-does-not-match".to_string(),
+                    "missed-row" => "nested-search-misses-matching-child".to_string(),
+                    _ => sig,
+                };
+                res.push((sig, format!("nested search under parent {}: {}", p, detail)));
+            }
+        }
+        res
+    }
+
     fn classify(&self, s: usize, e: u64, t: u64, hits: &[u64], expect: &[u64]) -> Vec<(String, String)> {
         let mut res = vec![];
         let site = &self.sites[s];
@@ -225,7 +288,7 @@ impl World {
                 match site.origin.get(n) {
                     Some(Origin::IngestedInsert) => "synchronised-row-missed",
                     Some(Origin::IngestedUpdate) => "synchronised-update-missed",
-                    Some(Origin::LocalAfterDeletion) => "missed-row-in-reused-slot",
+                    Some(Origin::LocalAfterDeletion) => "missed-row",
                     _ => "missed-row",
                 }
             };
@@ -416,6 +479,73 @@ impl World {
                 self.step_clock();
                 st
             }
+            "link" => {
+                let (n, m) = match (get_u(kv, "n"), get_u(kv, "m")) {
+                    (Some(n), Some(m)) => (n, m),
+                    _ => return "bad-op".into(),
+                };
+                if self.sites.len() != 1 || n == m {
+                    return "skip".into();
+                }
+                let (a, b) = match (self.sites[s].rows.get(&n), self.sites[s].rows.get(&m)) {
+                    (Some(a), Some(b)) if a.1 == 0 && b.1 == 0 => (a.0, b.0),
+                    _ => return "skip".into(),
+                };
+                stats.inc("op.link");
+                let q = "mutate { Doc { id:$id kids:[{id:$m}] } }";
+                let r = match self.sites[s].inst.svc.mutate_raw(q, Some(params(&[("id", b64(&a)), ("m", b64(&b))]))).await {
+                    Ok(_) => "ok".to_string(),
+                    Err(e) => format!("err:{}", class(&e)),
+                };
+                self.step_clock();
+                r
+            }
+            "qn" => {
+                let t = match get_u(kv, "t") {
+                    Some(t) => t,
+                    None => return "bad-op".into(),
+                };
+                if self.sites.len() != 1 {
+                    return "skip".into();
+                }
+                stats.inc("op.qn");
+                match self.nested(s, t).await {
+                    Ok((hits, expect)) => {
+                        if self.indexed_now(s, 0) {
+                            oracle.extend(self.classify_nested(s, t, &hits, &expect));
+                        }
+                        if !hits.is_empty() {
+                            stats.inc("nested_searches_with_hits");
+                        }
+                        format!("nhits {}", fmt_nested(&hits)).trim_end().to_string()
+                    }
+                    Err(e) => format!("err:{}", e),
+                }
+            }
+            "qnall" => {
+                if self.sites.len() != 1 {
+                    return "skip".into();
+                }
+                stats.inc("op.qnall");
+                let words: Vec<u64> = self.words.iter().copied().collect();
+                let mut parts = vec![];
+                for t in words {
+                    match self.nested(s, t).await {
+                        Ok((hits, expect)) => {
+                            stats.inc("nested_searches");
+                            if self.indexed_now(s, 0) {
+                                oracle.extend(self.classify_nested(s, t, &hits, &expect));
+                            }
+                            if !hits.is_empty() {
+                                stats.inc("nested_searches_with_hits");
+                                parts.push(format!("{}={}", t, fmt_nested(&hits).replace(';', "/")));
+                            }
+                        }
+                        Err(er) => parts.push(format!("{}=err:{}", t, er)),
+                    }
+                }
+                format!("nall {}", parts.join(";")).trim_end().to_string()
+            }
             "q" => {
                 let (e, t) = match (get_u(kv, "e"), get_u(kv, "t")) {
                     (Some(e), Some(t)) if e < 2 => (e, t),
@@ -494,6 +624,13 @@ impl World {
     }
 }
 
+fn fmt_nested(v: &[(u64, Vec<u64>)]) -> String {
+    v.iter()
+        .map(|(p, cs)| format!("{}:{}", p, cs.iter().map(|x| x.to_string()).collect::<Vec<_>>().join(",")))
+        .collect::<Vec<_>>()
+        .join(";")
+}
+
 pub fn gen_fts(seed: u64, n: usize, len: usize, out: &str) {
     let mut g = Gen::new(seed);
     let mut w = BufWriter::new(std::fs::File::create(out).unwrap());
@@ -514,7 +651,7 @@ pub fn gen_fts(seed: u64, n: usize, len: usize, out: &str) {
         };
         for _ in 0..l {
             let s = g.below(sites);
-            match g.weighted(&[6, 5, 1, 4, if sites == 2 { 4 } else { 0 }, 3, 1, 1]) {
+            match g.weighted(&[6, 5, 1, 4, if sites == 2 { 4 } else { 0 }, 3, 1, 1, if sites == 1 { 9 } else { 0 }, if sites == 1 { 3 } else { 0 }]) {
                 0 => {
                     let e = if g.chance(3, 4) { 0 } else { 1 };
                     writeln!(w, "new s={} n={} e={} w={}", s, next_row, e, words(&mut g)).unwrap();
@@ -554,11 +691,23 @@ pub fn gen_fts(seed: u64, n: usize, len: usize, out: &str) {
                 }
                 5 => writeln!(w, "q s={} e={} t={}", s, g.below(2), g.pick(&vocab)).unwrap(),
                 6 => writeln!(w, "model s={} v={}", s, g.below(4)).unwrap(),
+                8 => {
+                    // a reference between two rows (parent and child texts are drawn independently)
+                    if rows[s].len() >= 2 {
+                        let a = *g.pick(&rows[s]);
+                        let b = *g.pick(&rows[s]);
+                        writeln!(w, "link s={} n={} m={}", s, a, b).unwrap();
+                    }
+                }
+                9 => writeln!(w, "qn s={} t={}", s, g.pick(&vocab)).unwrap(),
                 _ => writeln!(w, "qall s={}", s).unwrap(),
             }
         }
         for s in 0..sites {
             writeln!(w, "qall s={}", s).unwrap();
+        }
+        if sites == 1 {
+            writeln!(w, "qnall s=0").unwrap();
         }
     }
     w.flush().unwrap();
